@@ -125,17 +125,8 @@ def _run_one(v):
         return v['id'], 'stale', ''
     rep = check.run_property(v['prop'], 'quick', overlay=overlay)
     # evaluate without writing evidence
-    from pwsa.report import _load_json, KNOWN_PATH, REVIEWED_PATH
-    known = {e['key'] for e in _load_json(KNOWN_PATH, {}).get('findings', [])
-             if e.get('property') == v['prop']}
-    rev = {e['key'] for e in _load_json(REVIEWED_PATH, {}).get('entries', [])
-           if e.get('property') == v['prop']}
-    hits = []
-    for rr in rep.rules:
-        for f in rr.findings:
-            if f.key in known or f.key in rev:
-                continue
-            hits.append(f)
+    from pwsa.report import unlisted_findings
+    hits = unlisted_findings(rep)
     want = v['expect']
     for f in hits:
         if want.get('rule') is None or (
